@@ -343,5 +343,12 @@ def s16_region(bpj, harvest):
     return any(len(v) >= 3 for v in groups.values())
 
 
+def s17_region(bpj, harvest):
+    """known finding S17: a producer in the compiler's logical edge list has no entity in the blueprint
+    (an anonymous folded constant that is a wire-merge operand is never materialised)"""
+    num = id_to_number(bpj, harvest)
+    return any(src not in num for src, snk, sig, col, *m in harvest["edges"])
+
+
 def load(text):
     return json.loads(text)
